@@ -215,7 +215,87 @@ def c19_method_after(f1: int, f2: int, same_file: bool, v: int) -> bool:
     cleanup_vfx()
 
 
+# (statements of one file, [(python object getter, parameter, value)])
+COLLIDE_FILES = [
+    ('import vfx.alpha.mod\nvfx.alpha.mod.fn.x = 11\n', 'alpha.fn'),            # plain dotted import: binds `vfx`
+    ('from vfy import vfx\nvfx.hfn.x = 22\n', 'vfy.hfn'),                        # from-import: binds `vfx` too
+    ('import vfy.vfx as mod\nmod.hfn.x = 22\n', 'vfy.hfn'),                      # alias `mod`
+    ('from vfx.alpha import mod\nmod.fn.x = 11\n', 'alpha.fn'),                  # from-import: binds `mod` too
+    ('import vfx.beta.mod\nvfx.beta.mod.fn.x = 33\n', 'beta.fn'),               # second plain import of package vfx
+    ('import vfx.alpha.mod as vfy\nvfy.Cls.x = 44\n', 'alpha.Cls'),              # alias equal to another package name
+    ('import vfy.vfx\nvfy.vfx.hfn.x = 22\n', 'vfy.hfn'),                        # plain import of package vfy
+]
+NCF = len(COLLIDE_FILES)
+
+
+def c19_collide(f1: int, f2: int, f3: int, n: int) -> bool:
+  """
+  pre: 0 <= f1 < 7 and 0 <= f2 < 7 and 0 <= f3 < 7 and 2 <= n <= 3
+  """
+  import vfy.vfx as H
+  world.fresh()
+  cleanup_vfx()
+  fs = [rt.pick(f, NCF) for f in (f1, f2, f3)[:n]]
+  rt.sig(('collide', tuple(fs)), nontrivial=len(set(fs)) >= 2)
+  try:
+    with rt.native():
+      for f in fs:
+        gin.parse_config(DR + '\n' + COLLIDE_FILES[f][0])
+
+      def observe():
+        out = {}
+        for key, fn_, log in (('alpha.fn', A.fn, A.CALLS), ('beta.fn', B.fn, B.CALLS),
+                              ('vfy.hfn', H.hfn, H.CALLS), ('alpha.Cls', A.Cls, A.CALLS)):
+          del log[:]
+          try:
+            gin.get_configurable(fn_)()
+            out[key] = log[-1][1]
+          except Exception as e:
+            out[key] = 'unregistered'
+        return out
+
+      before = observe()
+      want = {'alpha.fn': 0, 'beta.fn': 0, 'vfy.hfn': 0, 'alpha.Cls': 0}
+      for f in fs:
+        want[COLLIDE_FILES[f][1]] = int(COLLIDE_FILES[f][0].rsplit('= ', 1)[1])
+      for k, v in want.items():
+        if before[k] != 'unregistered' and before[k] != v:
+          return rt.no('before serialisation %s received %r, expected %r' % (k, before[k], v))
+      text = gin.config_str()
+      # the bound names of the emitted imports must be unique
+      gc._CONFIG.clear(); gc._CONFIG_PROVENANCE.clear(); gc._IMPORTS.clear()
+      try:
+        gin.parse_config(text)
+      except Exception as e:
+        return rt.no('config string does not re-parse: %r\n%s' % (e, text))
+      after = observe()
+      for k in want:
+        if before[k] != 'unregistered' and after[k] != before[k]:
+          return rt.no('after re-parsing the config string %s receives %r instead of %r\n%s' %
+                       (k, after[k], before[k], text))
+      return gin.config_str() == text or rt.no('config string not stable\n%s' % text)
+  finally:
+    cleanup_vfx()
+    for sel in list(gc._REGISTRY._selector_map):
+      if (getattr(gc._REGISTRY[sel].wrapped, '__module__', '') or '').startswith('vfy'):
+        gc._REGISTRY.pop(sel)
+    for obj in list(gc._INVERSE_REGISTRY):
+      if (getattr(obj, '__module__', '') or '').startswith('vfy'):
+        del gc._INVERSE_REGISTRY[obj]
+
+
 HARNESSES = {
+    'c19_collide': dict(
+        fn='c19_collide',
+        anchors=['gin.config:add_import', 'gin.config:_config_str', 'gin.config:minimal_selector'],
+        smoke=[dict(f1=0, f2=1, f3=3, n=3), dict(f1=1, f2=0, f3=0, n=2)],
+        tiers={'quick': dict(split=dict(f1=list(range(NCF))), fixed=dict(n=2, f3=0), budget_s=100),
+               'thorough': dict(split=dict(f1=list(range(NCF)), f2=list(range(NCF))), fixed=dict(n=3),
+                                budget_s=300)},
+        bounds='2 (quick) / 3 (thorough) files in every order from 7 whose imports bind colliding names (plain dotted '
+               'import of package vfx x2, from-import / alias / plain import of vfy.vfx, alias equal to another package '
+               'name, from-import binding `mod` twice); the emitted config string must re-parse and configure the same '
+               'Python objects'),
     'c19_spellings': dict(
         fn='c19_spellings',
         anchors=['gin.config:process_import', 'gin.config:_resolve_selector', 'gin.config:_register',
